@@ -34,13 +34,17 @@ SIMPLE_DECODERS = [
     "multidecoder.decoders.network.find_domains",
     "multidecoder.decoders.network.find_emails",
     "multidecoder.decoders.network.find_ips",
+    "multidecoder.decoders.network.is_url",
+    "multidecoder.decoders.network.parse_authority",
+    "multidecoder.decoders.network.parse_url",
+    "multidecoder.decoders.network.find_urls",
 ]
 SHELL_FUNCS = ["multidecoder.decoders.shell.strip_carets", "multidecoder.decoders.shell.deobfuscate_cmd"]
 
 NOT_UNDER_CONTRACT = (
-    "decoders not (yet) under a deductive contract and covered only by the run-time DecoderOK stand-in: network.find_urls "
-    "(+ parse_url, parse_authority, normalize_*; is_ip / parse_ip carry an ASSUMED contract about ipaddress / socket), path.find_windows_path (ntpath), pe_file.find_pe_files (pefile), powershell.find_powershell_bytes (xortool floats), "
-    "shell.find_powershell_strings"
+    "decoders not (yet) under a deductive contract and covered only by the run-time DecoderOK stand-in: path.find_windows_path (ntpath), pe_file.find_pe_files (pefile), "
+    "powershell.find_powershell_bytes (xortool floats); network.normalize_percent_encoding / normalize_path / _is_printable / is_ip / parse_ip / parse_ipv6 carry ASSUMED contracts "
+    "(re.sub callbacks, ipaddress, socket)"
 )
 
 
